@@ -311,23 +311,85 @@ class _EvaluatorCompiler:
     visit_ge_binary_op = _straight_evaluate
     visit_eq_binary_op = _straight_evaluate
 
+    def _in_operand_evaluator(self, element, default):
+        """evaluator for one side of IN which keeps NULL members.
+
+        A row value ``tuple_(a, b)`` on the left and an inline list
+        ``(x, NULL, y)`` on the right are evaluated member by member; the
+        generic clause list evaluator would collapse them to None as soon
+        as one member is NULL.
+
+        """
+        while element.__visit_name__ == "grouping":
+            element = element.element
+        if element.__visit_name__ in ("tuple", "clauselist"):
+            evaluators = [self.process(c) for c in element.clauses]
+            as_tuple = element.__visit_name__ == "tuple"
+
+            def evaluate(obj):
+                values = [sub_evaluate(obj) for sub_evaluate in evaluators]
+                if any(value is _EXPIRED_OBJECT for value in values):
+                    return _EXPIRED_OBJECT
+                values = [None if v is _NO_OBJECT else v for v in values]
+                return tuple(values) if as_tuple else values
+
+            return evaluate
+        else:
+            return default
+
+    @classmethod
+    def _sql_equals(cls, left, right):
+        """SQL ``=`` incl. row values: True, False or None (unknown)"""
+        if isinstance(left, tuple):
+            result = True
+            for left_elem, right_elem in zip(left, right):
+                elem_result = cls._sql_equals(left_elem, right_elem)
+                if elem_result is False:
+                    return False
+                elif elem_result is None:
+                    result = None
+            return result
+        elif left is None or right is None:
+            return None
+        else:
+            return left == right
+
+    def _evaluate_in(self, eval_left, eval_right, clause, negate):
+        eval_left = self._in_operand_evaluator(clause.left, eval_left)
+        eval_right = self._in_operand_evaluator(clause.right, eval_right)
+
+        def evaluate(obj):
+            left_val = eval_left(obj)
+            right_val = eval_right(obj)
+            if left_val is _EXPIRED_OBJECT or right_val is _EXPIRED_OBJECT:
+                return _EXPIRED_OBJECT
+            elif left_val is _NO_OBJECT or right_val is None:
+                return None
+
+            # x IN (v1, v2, ...) is the three-valued OR of x = v1, x = v2...;
+            # with an empty list it is FALSE even if x is NULL
+            result = False
+            for value in right_val:
+                equals = self._sql_equals(left_val, value)
+                if equals:
+                    result = True
+                    break
+                elif equals is None:
+                    result = None
+
+            if negate and result is not None:
+                result = not result
+            return result
+
+        return evaluate
+
     def visit_in_op_binary_op(self, operator, eval_left, eval_right, clause):
-        return self._straight_evaluate(
-            lambda a, b: a in b if a is not _NO_OBJECT else None,
-            eval_left,
-            eval_right,
-            clause,
-        )
+        return self._evaluate_in(eval_left, eval_right, clause, False)
 
     def visit_not_in_op_binary_op(
         self, operator, eval_left, eval_right, clause
     ):
-        return self._straight_evaluate(
-            lambda a, b: a not in b if a is not _NO_OBJECT else None,
-            eval_left,
-            eval_right,
-            clause,
-        )
+        return self._evaluate_in(eval_left, eval_right, clause, True)
 
     def visit_concat_op_binary_op(
         self, operator, eval_left, eval_right, clause
